@@ -938,6 +938,9 @@ fn run_xfer_chain(ws: &[&str]) -> (String, String) {
     let data = payload(n, kv_n(ws, "pat"), kv_n(ws, "per"), kv_n(ws, "nl"));
     let wk = kv_n(ws, "wk");
     let rk = kv_n(ws, "rk");
+    // `hs=J hk=K`: forwarder number J (1-based) is head-like: it stops reading after K bytes and exits
+    let hs = kv_n(ws, "hs");
+    let hk = kv_n(ws, "hk");
     let seed = kv_n(ws, "seed") as u64;
     let mut rng = Rng::new(seed ^ 0xC14_0003);
     let system = Rc::new(Concurrent::new(VirtualSystem::new()));
@@ -976,11 +979,18 @@ fn run_xfer_chain(ws: &[&str]) -> (String, String) {
         let fy = ys[i + 1];
         tasks.push(Some(Box::pin(async move {
             let mut buf = vec![0u8; if rk == 0 { 1024 } else { rk }];
+            let limit = if hs == i + 1 { hk } else { usize::MAX };
+            let mut total = 0usize;
             let out = loop {
+                if total >= limit {
+                    break "closed";
+                }
                 yields(fy).await;
-                match system.read(rfd, &mut buf).await {
+                let want = buf.len().min(limit - total);
+                match system.read(rfd, &mut buf[..want]).await {
                     Ok(0) => break "closed",
                     Ok(m) => {
+                        total += m;
                         if system.write_all(wfd, &buf[..m]).await.is_err() {
                             break "failed";
                         }
@@ -1060,7 +1070,14 @@ fn run_xfer_chain(ws: &[&str]) -> (String, String) {
     }
     let got = received.borrow().clone();
     let f = fres.borrow();
-    let ftxt = if f.iter().all(|x| *x == "closed") { "closed" } else { f.iter().find(|x| **x != "closed").unwrap() };
+    let joined = f.join(",");
+    let ftxt: &str = if hs > 0 {
+        &joined
+    } else if f.iter().all(|x| *x == "closed") {
+        "closed"
+    } else {
+        f.iter().find(|x| **x != "closed").unwrap()
+    };
     let obs = format!(
         "recv={}:{} w={} f={} r={}",
         got.len(),
@@ -1069,8 +1086,9 @@ fn run_xfer_chain(ws: &[&str]) -> (String, String) {
         ftxt,
         rres.get().unwrap_or("?")
     );
-    let oracle = if got != data {
-        let at = got.iter().zip(data.iter()).position(|(a, b)| a != b).unwrap_or(got.len().min(data.len()));
+    let expect: &[u8] = if hs > 0 { &data[..hk.min(data.len())] } else { &data };
+    let oracle = if got != expect {
+        let at = got.iter().zip(expect.iter()).position(|(a, b)| a != b).unwrap_or(got.len().min(expect.len()));
         format!("FAIL:data-differs-at-{at}")
     } else {
         "ok".to_string()
@@ -2731,6 +2749,30 @@ fn main() {
                 );
             }
         }
+    }
+
+    // last pass: a head-like stage in the middle of a concurrent pipeline (forwarder `hs` of `mid` stops after `hk`
+    // bytes): either the payload fits the allowance (everything exits normally) or it exceeds it by more than
+    // everything the upstream pipes and buffers can hold (the source and every stage before it die of EPIPE)
+    let mut rng7 = Rng::new(opts.seed ^ 0xC14_0700);
+    for _ in 0..(if thorough { 3_000 } else { 160 }) {
+        let mid = 1 + rng7.below(3);
+        let hs = 1 + rng7.below(mid);
+        let hk = *rng7.pick(&[0usize, 1, 5, PIPE_BUF - 1, PIPE_BUF, PIPE_SIZE, PIPE_SIZE + 1, 2000]);
+        let n = if rng7.chance(2, 3) {
+            hk + hs * (PIPE_SIZE + 5000) + 2048 + rng7.below(PIPE_SIZE)
+        } else {
+            rng7.below(hk + 1)
+        };
+        let wk = *rng7.pick(&[0usize, 0, 100, PIPE_BUF, PIPE_BUF + 1, 700, PIPE_SIZE + 1]);
+        let rk = *rng7.pick(&[0usize, 7, PIPE_BUF, PIPE_SIZE + 1, 5000]);
+        run(
+            &format!(
+                "xfer n={n} pat=3 per=0 nl=0 wk={wk} rk={rk} seed={} mid={mid} hs={hs} hk={hk}",
+                rng7.below(1_000_000)
+            ),
+            false,
+        );
     }
 
     // (ii-b'') third pass: command substitutions whose output is ill-formed UTF-8 of every kind (from_utf8_lossy),
